@@ -89,7 +89,8 @@ impl FunctionMarkupPass {
         }
         // A function with no reachable return statement cannot be analysed
         else {
-            match entry.labels().into_iter().min() {
+            // (the first label of the entry in program order, whatever the labels are called)
+            match entry.labels_in_order().into_iter().next() {
                 Some(label) => Err(Box::new(CfgError::FunctionWithoutReturn(label))),
                 None => Err(Box::new(CfgError::UnexpectedError)),
             }
